@@ -3,6 +3,7 @@
 
 #[macro_use]
 pub mod engine;
+pub mod alloc_count;
 pub mod capi_util;
 pub mod cy;
 pub mod hist;
